@@ -1,7 +1,10 @@
 // C19 harness: runs libphysica's helpers on the case file (see checks/C19.py for the case grammar)
 #include "common.hpp"
 #include <algorithm>
+#include <cerrno>
+#include <cfenv>
 #include <cstring>
+#include <iomanip>
 #include "libphysica/List_Manipulations.hpp"
 #include "libphysica/Statistics.hpp"
 #include "libphysica/Utilities.hpp"
@@ -55,9 +58,179 @@ static void put_wavg(vh::Out& o, std::vector<DataPoint> d)
 	o.f(res[1]);
 	o.i(same_points(d, before) ? 1 : 0);   // the data are handed over by non-const reference: they must come back unchanged
 }
+// ---- ambient process state: errno, the floating-point exception flags, the state of the standard streams.
+// Every case starts from the pristine state (so that a case line means the same alone and inside a long run); the amb_* events
+// of a session put the process into the state that earlier, unrelated calls of the library, of libm or of the caller's own
+// code leave behind.
+static std::ios* pristine_fmt[4] = {nullptr, nullptr, nullptr, nullptr};
+static std::ios* the_stream(int k) { return k == 0 ? (std::ios*) &std::cout : k == 1 ? (std::ios*) &std::cerr : k == 2 ? (std::ios*) &std::clog : (std::ios*) &std::cin; }
+static void ambient_reset()
+{
+	for(int k = 0; k < 4; k++)
+	{
+		if(pristine_fmt[k] == nullptr)
+		{
+			pristine_fmt[k] = new std::ios(nullptr);
+			pristine_fmt[k]->copyfmt(*the_stream(k));
+		}
+		the_stream(k)->clear();
+		the_stream(k)->copyfmt(*pristine_fmt[k]);
+	}
+	std::feclearexcept(FE_ALL_EXCEPT);
+	errno = 0;
+}
+static volatile double sink;
+static bool ambient_event(const std::string& op, vh::Reader& r)
+{
+	if(op == "amb_errno")
+		errno = (int) r.integer();
+	else if(op == "amb_fe")	  // bit 1 invalid, 2 division by zero, 4 overflow, 8 underflow, 16 inexact
+	{
+		long m = r.integer();
+		int f  = ((m & 1) ? FE_INVALID : 0) | ((m & 2) ? FE_DIVBYZERO : 0) | ((m & 4) ? FE_OVERFLOW : 0) | ((m & 8) ? FE_UNDERFLOW : 0) | ((m & 16) ? FE_INEXACT : 0);
+		std::feraiseexcept(f);
+	}
+	else if(op == "amb_stream")
+	{
+		std::string which = r.word(), what = r.word();
+		std::ios* s = the_stream(which == "cout" ? 0 : which == "cerr" ? 1 : which == "clog" ? 2 : 3);
+		std::ostream* os = which == "cin" ? nullptr : (std::ostream*) (which == "cout" ? &std::cout : which == "cerr" ? &std::cerr : &std::clog);
+		if(what == "failbit")
+			s->setstate(std::ios::failbit);
+		else if(what == "badbit")
+			s->setstate(std::ios::badbit);
+		else if(what == "eofbit")
+			s->setstate(std::ios::eofbit);
+		else if(what == "fixed")
+			s->setf(std::ios::fixed, std::ios::floatfield);
+		else if(what == "scientific")
+			s->setf(std::ios::scientific, std::ios::floatfield);
+		else if(what == "hexfloat")
+			s->setf(std::ios::fixed | std::ios::scientific, std::ios::floatfield);
+		else if(what == "showpos")
+			s->setf(std::ios::showpos);
+		else if(what == "showpoint")
+			s->setf(std::ios::showpoint);
+		else if(what == "uppercase")
+			s->setf(std::ios::uppercase);
+		else if(what == "boolalpha")
+			s->setf(std::ios::boolalpha);
+		else if(what == "hex")
+			s->setf(std::ios::hex, std::ios::basefield);
+		else if(what == "noskipws")
+			s->unsetf(std::ios::skipws);
+		else if(what == "width")
+			s->width(12);
+		else if(what == "fill" && os)
+			os->fill('*');
+		else if(what.compare(0, 4, "prec") == 0)
+			s->precision(std::atoi(what.c_str() + 4));
+	}
+	else if(op == "amb_call")	// other facilities of the library, evaluated where they raise flags / set errno or not
+	{
+		std::string f = r.word();
+		if(f == "pdf_gauss")
+		{
+			double x = r.num(), mu = r.num(), sg = r.num();
+			sink = PDF_Gauss(x, mu, sg);
+		}
+		else if(f == "cdf_gauss")
+		{
+			double x = r.num(), mu = r.num(), sg = r.num();
+			sink = CDF_Gauss(x, mu, sg);
+		}
+		else if(f == "pmf_poisson")
+		{
+			double mu = r.num();
+			long k	  = r.integer();
+			sink	  = PMF_Poisson(mu, (unsigned int) k);
+		}
+		else if(f == "lik_poisson" || f == "loglik_poisson")
+		{
+			double mu = r.num();
+			long k	  = r.integer();
+			double b  = r.num();
+			sink	  = f == "lik_poisson" ? Likelihood_Poisson(mu, (unsigned long) k, b) : Log_Likelihood_Poisson(mu, (unsigned long) k, b);
+		}
+		else if(f == "pdf_maxwell")
+		{
+			double x = r.num(), a = r.num();
+			sink = PDF_Maxwell_Boltzmann(x, a);
+		}
+		else if(f == "pdf_chi2")
+		{
+			double x = r.num(), d = r.num();
+			sink = PDF_Chi_Square(x, d);
+		}
+		else
+			return false;
+	}
+	else if(op == "amb_libm")	// the caller's own arithmetic
+	{
+		std::string f	  = r.word();
+		volatile double x = r.num(), y = r.num();
+		if(f == "log")
+			sink = std::log(x);
+		else if(f == "log10")
+			sink = std::log10(x);
+		else if(f == "sqrt")
+			sink = std::sqrt(x);
+		else if(f == "exp")
+			sink = std::exp(x);
+		else if(f == "acos")
+			sink = std::acos(x);
+		else if(f == "pow")
+			sink = std::pow(x, y);
+		else if(f == "lgamma")
+			sink = std::lgamma(x);
+		else if(f == "tgamma")
+			sink = std::tgamma(x);
+		else if(f == "fmod")
+			sink = std::fmod(x, y);
+		else if(f == "div")
+			sink = x / y;
+		else if(f == "mul")
+			sink = x * y;
+		else if(f == "strtod")
+			sink = std::strtod(x < 0 ? "1e-400" : "1e400", nullptr);
+		else
+			return false;
+	}
+	else
+		return false;
+	return true;
+}
+static void dispatch(const std::string& op, vh::Reader& r, vh::Out& o);
 static void handler(vh::Reader& r, vh::Out& o)
 {
+	ambient_reset();
 	std::string op = r.word();
+	if(op == "seq")	  // a session: n sub-cases (each preceded by its number of tokens) in this one process, answers separated by |
+	{
+		long n = r.integer();
+		for(long k = 0; k < n; k++)
+		{
+			long len = r.integer();
+			std::string line;
+			for(long j = 0; j < len; j++)
+				line += (j ? " " : "") + r.word();
+			vh::Reader sub(line);
+			vh::Out so;
+			std::string sop = sub.word();
+			if(sop.compare(0, 4, "amb_") == 0)
+				so.w(ambient_event(sop, sub) ? "." : "HARNESSERR unknown_event");
+			else
+				dispatch(sop, sub, so);
+			if(k)
+				o.w("|");
+			o.w(so.s.str());
+		}
+		return;
+	}
+	dispatch(op, r, o);
+}
+static void dispatch(const std::string& op, vh::Reader& r, vh::Out& o)
+{
 	if(op == "workload")
 	{
 		long w = r.integer(), t = r.integer();
